@@ -136,6 +136,7 @@ var c07Updates = []struct {
 	{`"s"`, func() ref.Node { return rstr("s") }},
 	{`[]`, func() ref.Node { return &ref.Arr{} }},
 	{`nothing`, func() ref.Node { return rpath(rname("nothing")) }},
+	{`$`, func() ref.Node { return rvar("") }}, // the selected object itself: its members are carried over unchanged
 }
 
 var c07Deletes = []struct {
